@@ -4,25 +4,27 @@
 import DxModel.Names
 namespace Dx.Names
 
-theorem keepIdx_nil (i : Nat) (cs : List Canon) : keepIdx [] i cs = cs := by
+variable {L τ : Type}
+
+theorem keepIdx_nil (i : Nat) (cs : List (Canon L)) : keepIdx [] i cs = cs := by
   induction cs generalizing i with
   | nil => rfl
   | cons x xs ih => simp [keepIdx, ih]
 
-theorem length_canonOps (S : Scheme) (l : List Operand) : (canonOps S l).length = l.length := by
+theorem length_canonOps (S : Scheme L τ) (l : List (Operand L)) : (canonOps S l).length = l.length := by
   induction l with
   | nil => rfl
   | cons o os ih => simp [canonOps, ih]
 
-theorem tokenInput_plain {r : Rule} (h : plain r = true) (c : Nat) (x : Canon) (cs : List Canon) :
+theorem tokenInput_plain {r : Rule} (h : plain r = true) (c : L) (x : Canon L) (cs : List (Canon L)) :
     tokenInput r c x cs = cs := by
   simp only [plain, Bool.and_eq_true, Bool.not_eq_true', List.isEmpty_iff] at h
   obtain ⟨⟨h1, h2⟩, h3⟩ := h
   simp [tokenInput, h1, h2, h3, keepIdx_nil]
 
 /-- same class, nothing dropped: equal token inputs have equal operand lists -/
-theorem tokenInput_inj_same {r : Rule} (h : ownComplete r = true) (c : Nat) (x₁ x₂ : Canon)
-    (cs₁ cs₂ : List Canon) (he : tokenInput r c x₁ cs₁ = tokenInput r c x₂ cs₂) : cs₁ = cs₂ := by
+theorem tokenInput_inj_same {r : Rule} (h : ownComplete r = true) (c : L) (x₁ x₂ : Canon L)
+    (cs₁ cs₂ : List (Canon L)) (he : tokenInput r c x₁ cs₁ = tokenInput r c x₂ cs₂) : cs₁ = cs₂ := by
   simp only [ownComplete, List.isEmpty_iff] at h
   simp only [tokenInput, h, keepIdx_nil] at he
   have hl : ((if r.clsInTok then [Canon.lit c] else []) ++ (if r.extra then [x₁] else [])).length
@@ -37,11 +39,12 @@ theorem arityDisjoint_spec {r₁ r₂ : Rule} (h : arityDisjoint r₁ r₂ = tru
   cases hv₁ : r₁.variadic <;> cases hv₂ : r₂.variadic <;> simp [hv₁, hv₂] at h h₁ h₂ <;> omega
 
 /-- different classes that are `separated` never agree on prefix and token input -/
-theorem separated_spec (S : Scheme) {c₁ c₂ : Nat} (hne : c₁ ≠ c₂)
-    (hs : separated (S.rules c₁) (S.rules c₂) = true) (cs₁ cs₂ : List Canon)
+theorem separated_spec (S : Scheme L τ) (hcls : ∀ a b, S.clsCode a = S.clsCode b → a = b) {c₁ c₂ : Nat} (hne : c₁ ≠ c₂)
+    (hs : separated (S.rules c₁) (S.rules c₂) = true) (cs₁ cs₂ : List (Canon L))
     (ha₁ : arityOK (S.rules c₁) cs₁.length = true) (ha₂ : arityOK (S.rules c₂) cs₂.length = true)
     (hp : prefixOf S c₁ cs₁ = prefixOf S c₂ cs₂)
-    (ht : tokenInput (S.rules c₁) c₁ (S.extraTok c₁ cs₁) cs₁ = tokenInput (S.rules c₂) c₂ (S.extraTok c₂ cs₂) cs₂) :
+    (ht : tokenInput (S.rules c₁) (S.clsCode c₁) (S.extraTok c₁ cs₁) cs₁
+        = tokenInput (S.rules c₂) (S.clsCode c₂) (S.extraTok c₂ cs₂) cs₂) :
     False := by
   simp only [separated, Bool.or_eq_true, Bool.and_eq_true] at hs
   rcases hs with (hs | hs) | hs
@@ -60,7 +63,7 @@ theorem separated_spec (S : Scheme) {c₁ c₂ : Nat} (hne : c₁ ≠ c₂)
   · -- both tokenize their class name first
     simp only [tokenInput, hs.1, hs.2, if_true, List.cons_append, List.nil_append, List.cons.injEq,
       Canon.lit.injEq] at ht
-    exact hne ht.1
+    exact hne (hcls _ _ ht.1)
   · -- both plain, operand counts can never coincide
     obtain ⟨⟨hp₁, hp₂⟩, hd⟩ := hs
     rw [tokenInput_plain hp₁, tokenInput_plain hp₂] at ht
@@ -68,10 +71,11 @@ theorem separated_spec (S : Scheme) {c₁ c₂ : Nat} (hne : c₁ ≠ c₂)
     exact arityDisjoint_spec hd _ ha₁ ha₂
 
 mutual
-theorem injE (S : Scheme) (good : Nat → Prop)
+theorem injE (S : Scheme L τ) (good : Nat → Prop)
     (htok : ∀ a b, S.token a = S.token b → a = b) (hcode : ∀ a b, S.nameCode a = S.nameCode b → a = b)
+    (hcls : ∀ a b, S.clsCode a = S.clsCode b → a = b)
     (hrule : NameRuleComplete S good) :
-    ∀ e₁ e₂ : E, AdmE S good e₁ → AdmE S good e₂ → nameOf S e₁ = nameOf S e₂ → e₁ = e₂
+    ∀ e₁ e₂ : E L, AdmE S good e₁ → AdmE S good e₂ → nameOf S e₁ = nameOf S e₂ → e₁ = e₂
   | .node c₁ o₁, .node c₂ o₂, h₁, h₂, h => by
     simp only [nameOf, Name.mk.injEq] at h
     obtain ⟨hp, ht⟩ := h
@@ -81,16 +85,17 @@ theorem injE (S : Scheme) (good : Nat → Prop)
     obtain ⟨g₂, a₂, ad₂⟩ := h₂
     by_cases hc : c₁ = c₂
     · subst hc
-      have hcs := tokenInput_inj_same (hrule.1 c₁ g₁) c₁ _ _ _ _ ht
-      rw [injOps S good htok hcode hrule o₁ o₂ ad₁ ad₂ hcs]
+      have hcs := tokenInput_inj_same (hrule.1 c₁ g₁) _ _ _ _ _ ht
+      rw [injOps S good htok hcode hcls hrule o₁ o₂ ad₁ ad₂ hcs]
     · exfalso
-      refine separated_spec S hc (hrule.2 c₁ c₂ g₁ g₂ hc) _ _ ?_ ?_ hp ht
+      refine separated_spec S hcls hc (hrule.2 c₁ c₂ g₁ g₂ hc) _ _ ?_ ?_ hp ht
       · rw [length_canonOps]; exact a₁
       · rw [length_canonOps]; exact a₂
-theorem injO (S : Scheme) (good : Nat → Prop)
+theorem injO (S : Scheme L τ) (good : Nat → Prop)
     (htok : ∀ a b, S.token a = S.token b → a = b) (hcode : ∀ a b, S.nameCode a = S.nameCode b → a = b)
+    (hcls : ∀ a b, S.clsCode a = S.clsCode b → a = b)
     (hrule : NameRuleComplete S good) :
-    ∀ o₁ o₂ : Operand, AdmO S good o₁ → AdmO S good o₂ → canon S o₁ = canon S o₂ → o₁ = o₂
+    ∀ o₁ o₂ : Operand L, AdmO S good o₁ → AdmO S good o₂ → canon S o₁ = canon S o₂ → o₁ = o₂
   | .lit a, .lit b, _, _, h => by
       simp only [canon, Canon.lit.injEq] at h; rw [h]
   | .lit a, .sub e, h₁, _, h => by
@@ -104,26 +109,27 @@ theorem injO (S : Scheme) (good : Nat → Prop)
   | .sub a, .sub b, h₁, h₂, h => by
       simp only [canon, Canon.lit.injEq] at h
       simp only [AdmO] at h₁ h₂
-      rw [injE S good htok hcode hrule a b h₁ h₂ (hcode _ _ h)]
+      rw [injE S good htok hcode hcls hrule a b h₁ h₂ (hcode _ _ h)]
   | .seq a, .seq b, h₁, h₂, h => by
       simp only [canon, Canon.seq.injEq] at h
       simp only [AdmO] at h₁ h₂
-      rw [injOps S good htok hcode hrule a b h₁ h₂ h]
+      rw [injOps S good htok hcode hcls hrule a b h₁ h₂ h]
   | .lit _, .seq _, _, _, h => by simp [canon] at h
   | .sub _, .seq _, _, _, h => by simp [canon] at h
   | .seq _, .lit _, _, _, h => by simp [canon] at h
   | .seq _, .sub _, _, _, h => by simp [canon] at h
-theorem injOps (S : Scheme) (good : Nat → Prop)
+theorem injOps (S : Scheme L τ) (good : Nat → Prop)
     (htok : ∀ a b, S.token a = S.token b → a = b) (hcode : ∀ a b, S.nameCode a = S.nameCode b → a = b)
+    (hcls : ∀ a b, S.clsCode a = S.clsCode b → a = b)
     (hrule : NameRuleComplete S good) :
-    ∀ l₁ l₂ : List Operand, AdmOps S good l₁ → AdmOps S good l₂ → canonOps S l₁ = canonOps S l₂ → l₁ = l₂
+    ∀ l₁ l₂ : List (Operand L), AdmOps S good l₁ → AdmOps S good l₂ → canonOps S l₁ = canonOps S l₂ → l₁ = l₂
   | [], [], _, _, _ => rfl
   | [], _ :: _, _, _, h => by simp [canonOps] at h
   | _ :: _, [], _, _, h => by simp [canonOps] at h
   | a :: as, b :: bs, h₁, h₂, h => by
       simp only [canonOps, List.cons.injEq] at h
       simp only [AdmOps] at h₁ h₂
-      rw [injO S good htok hcode hrule a b h₁.1 h₂.1 h.1, injOps S good htok hcode hrule as bs h₁.2 h₂.2 h.2]
+      rw [injO S good htok hcode hcls hrule a b h₁.1 h₂.1 h.1, injOps S good htok hcode hcls hrule as bs h₁.2 h₂.2 h.2]
 end
 
 /-! ### `separated` is symmetric (the table is checked for ordered pairs only) -/
